@@ -181,5 +181,26 @@ CalldataTwo ==
        FnDecl("function", "takeTwo", VisAttr(x[1]) \o MutAttr("payable"), TwoParams, <<>>, TRUE, <<WriteTo("first", x[2]), WriteTo("second", x[3])>>))
        : x \in {"public", "external"} \X {"assign", "index", "read"} \X {"assign", "index", "read"}}
 
+\* two function-like members of one contract, in both orders: what the scan of one leaves behind (a parameter table,
+\* a candidate that was not suggested: constructor, internal, bodyless) must not reach the verdict on the next
+OneMem(nm) == <<<<[present |-> TRUE, storage |-> "memory", name |-> nm]>>, <<ArrTy>>>>
+Reads(nm) == ExprStmt(Bin("E.Assign", Var("sink"), Index(Var(nm), Num("0"))))
+CalldataLeavers ==
+    {<<"ctor", FnDecl("constructor", "", <<>>, OneMem("data"), <<>>, TRUE, <<Reads("data")>>)>>,
+     <<"internal", FnDecl("function", "inner", VisAttr("internal"), OneMem("data"), <<>>, TRUE, <<Reads("data")>>)>>,
+     <<"bodyless", FnDecl("function", "declared", VisAttr("external"), OneMem("data"), <<>>, FALSE, <<>>)>>,
+     <<"writer", FnDecl("function", "writes", VisAttr("public") \o MutAttr("payable"), OneMem("data"), <<>>, TRUE, <<WriteTo("data", "assign")>>)>>}
+CalldataFollowers ==
+    {<<"no-params", FnDecl("function", "plain", VisAttr("public") \o MutAttr("payable"), NoParams, <<>>, TRUE, <<>>)>>,
+     <<"other-param", FnDecl("function", "other", VisAttr("external") \o MutAttr("payable"), OneMem("blob"), <<>>, TRUE, <<Reads("blob")>>)>>,
+     <<"same-name", FnDecl("function", "again", VisAttr("external") \o MutAttr("payable"), OneMem("data"), <<>>, TRUE, <<Reads("data")>>)>>}
+CalldataSeqFiles ==
+    {I("calldata-seq:" \o x[1][1] \o ">" \o x[2][1], "SU", InFile(<<InContract(<<x[1][2], x[2][2]>>)>>)) : x \in CalldataLeavers \X CalldataFollowers}
+    \cup {I("calldata-seq:" \o x[2][1] \o ">" \o x[1][1], "SU", InFile(<<InContract(<<x[2][2], x[1][2]>>)>>)) : x \in CalldataLeavers \X CalldataFollowers}
+    \cup {I("calldata-seq:other-contract:" \o x[1][1] \o ">" \o x[2][1], "SU",
+             InFile(<<N("SUP.ContractDefinition", [cty |-> "contract", name |-> "Earlier", bases |-> <<>>], <<<<>>, <<x[1][2]>>>>),
+                      N("SUP.ContractDefinition", [cty |-> "contract", name |-> "Later", bases |-> <<>>], <<<<>>, <<x[2][2]>>>>)>>))
+           : x \in CalldataLeavers \X CalldataFollowers}
+
 DeclInstancesCP == FnProduct \cup VarProduct \cup DestructShapes \cup CalldataFns
 =============================================================================
